@@ -22,6 +22,7 @@ pub(crate) use env as __env_by_path;
 
 mod ce;
 mod gens;
+mod isolate;
 mod oracle;
 mod rng;
 mod rsparse;
@@ -973,7 +974,14 @@ fn cmd_check(a: &Args) -> i32 {
         std::thread::available_parallelism().map(|n| n.get() as u64).unwrap_or(4),
     )
     .max(1);
-    let layout_runs = opt_u64(a, "runs", if tier == "quick" { 40_000 } else { 3_000_000 });
+    // a forked child per run costs about ten times an in-process run: fewer runs in that mode
+    let isolated = isolate::ISOLATE.load(std::sync::atomic::Ordering::Relaxed);
+    let layout_runs = opt_u64(a, "runs", match (tier.as_str(), isolated) {
+        ("quick", false) => 40_000,
+        ("quick", true) => 10_000,
+        (_, false) => 3_000_000,
+        (_, true) => 400_000,
+    });
     let likely_runs = opt_u64(a, "likely-runs", if tier == "quick" { 8 } else { 64 });
     let evidence_path = PathBuf::from(
         a.opts
@@ -990,6 +998,7 @@ fn cmd_check(a: &Args) -> i32 {
     ));
 
     println!("gensim C18 tier={} VERIF_SEED={} threads={} layout_runs={} likely_runs={}", tier, seed, threads, layout_runs, likely_runs);
+    isolate::LIMIT_S.store(run_time_limit(a).as_secs().max(1), std::sync::atomic::Ordering::Relaxed);
     spawn_watchdog(run_time_limit(a), evidence_path.clone(), replay_dir.clone(), tier.clone(), seed, t0);
 
     let image = match FsImage::load(Path::new(REPO_CRATE)) {
@@ -1178,7 +1187,7 @@ fn cmd_check(a: &Args) -> i32 {
         }
     }
     println!("real re-runs of the generator binaries (fidelity cross-check): {} done, {} mismatching ({})", real_done, real_viol.len(), real_note);
-    let fault_runs = opt_u64(a, "fault-runs", if tier == "quick" { 6_000 } else { 300_000 });
+    let fault_runs = opt_u64(a, "fault-runs", if tier == "quick" { 6_000 } else { 300_000 }) / if isolated { 6 } else { 1 };
     let hf_lay = run_fault_batch(&ctx, Gen::Layout, seed, fault_runs, threads, secs(30, 600));
     let hf_lik = run_fault_batch(&ctx, Gen::Likely, seed, (fault_runs / 100).max(12), threads, secs(30, 600));
     for (name, c) in [("covering family", &cvr), ("generate_layout seeded search", &lay), ("generate_likelysubtags seeded search", &lik)] {
@@ -1452,6 +1461,7 @@ fn cmd_check(a: &Args) -> i32 {
                 "clock_reads": sum.clock_reads,
                 "external_programs_asked_for": sum.programs_spawned,
                 "external_programs_not_installed_by_decision": sum.programs_missing,
+                "parallel_stages_run_on_simulated_workers_rayon_lookalike": sum.parallel_stages,
                 "open_file_limit_decisions": sum.fd_limit_decisions,
                 "opens_failed_with_emfile": sum.emfile,
                 "max_descriptors_open_at_once": sum.max_open_fds,
@@ -1539,6 +1549,12 @@ fn cmd_check(a: &Args) -> i32 {
                 "runs": real_done,
                 "mismatching": real_viol.len(),
                 "status": real_note,
+            },
+            "process_isolation": {
+                "note": "when the generator sources declare process-wide state (static with interior mutability, thread_local!, lazy_static!, static mut) every simulated run is executed in a forked child of the simulator, so that statics start pristine as in a real process and nothing leaks from run to run or between worker threads; a child that exceeds the run time limit is killed and reported as a run that does not terminate",
+                "enabled": isolate::ISOLATE.load(std::sync::atomic::Ordering::Relaxed),
+                "children_forked": isolate::FORKS.load(std::sync::atomic::Ordering::Relaxed),
+                "children_killed_at_the_time_limit": isolate::KILLED.load(std::sync::atomic::Ordering::Relaxed),
             },
             "determinism": {
                 "runs_reexecuted_on_another_worker": dn_l + dn_k,
@@ -2020,10 +2036,50 @@ fn cmd_show(a: &Args) -> i32 {
     0
 }
 
+/// Do the generator programs (and the helper modules next to them) keep state in statics?
+fn generator_process_state() -> Option<String> {
+    fn walk(dir: &Path, out: &mut Option<String>) {
+        let Ok(rd) = std::fs::read_dir(dir) else { return };
+        let mut entries: Vec<PathBuf> = rd.flatten().map(|e| e.path()).collect();
+        entries.sort();
+        for p in entries {
+            if out.is_some() {
+                return;
+            }
+            if p.is_dir() {
+                walk(&p, out);
+            } else if p.extension().map(|e| e == "rs").unwrap_or(false) {
+                if let Ok(text) = std::fs::read_to_string(&p) {
+                    if let Some(hit) = isolate::declares_process_state(&text) {
+                        *out = Some(format!("{}: {}", p.strip_prefix("/repo").unwrap_or(&p).display(), hit));
+                    }
+                }
+            }
+        }
+    }
+    let mut out = None;
+    walk(&Path::new(REPO_CRATE).join("src/bin"), &mut out);
+    out
+}
+
 fn main() {
     // shuttle installs a process-wide panic hook at its first execution; ours goes on top of it
     sim::prime_shuttle();
     sim::install_panic_hook();
+    // A generator that keeps state in statics gets a fresh process per simulated run (isolate.rs)
+    match std::env::var("GENSIM_ISOLATE").ok().as_deref() {
+        Some("0") => {}
+        Some(_) => {
+            isolate::ISOLATE.store(true, std::sync::atomic::Ordering::SeqCst);
+            println!("NOTE: every simulated run is executed in a forked child process (GENSIM_ISOLATE)");
+        }
+        None => {
+            if let Some(why) = generator_process_state() {
+                isolate::ISOLATE.store(true, std::sync::atomic::Ordering::SeqCst);
+                println!("NOTE: the generator programs keep process-wide state ({}): every simulated run is executed in a forked child process with pristine statics", why);
+            }
+        }
+    }
     // uninterceptable path queries (Path::exists etc.) then hit the same tree the image was loaded from
     let _ = std::env::set_current_dir(REPO_CRATE);
     let a = parse_args();
